@@ -13,35 +13,56 @@ Section C14.
   Variable now_s : Z.
   Variable now_us : Z.
   Variable exec : list json -> exec_result.
+  (** [K]: any class of keys containing every key the run can use (see [keys_in_K], [keyset_ok]) *)
+  Variable K : json -> Prop.
 
   Local Notation vfy := (vfy b64dec loads sig_ok now_s now_us exec).
   Local Notation vsig := (verify_signature sig_ok now_s).
-  Local Notation md_rel := (md_rel sig_ok now_s).
-  Local Notation dir_rel := (dir_rel b64dec loads sig_ok now_s).
-  Local Notation files_rel := (files_rel b64dec loads sig_ok now_s).
-  Local Notation file_rel := (file_rel b64dec loads sig_ok now_s).
-  Local Notation args_rel := (args_rel sig_ok now_s).
+  Local Notation md_rel := (md_rel sig_ok now_s K).
+  Local Notation mdo_rel := (mdo_rel sig_ok now_s K).
+  Local Notation md_ok := (md_ok K).
+  Local Notation keys_in_K := (keys_in_K K).
+  Local Notation keyset_ok := (keyset_ok K).
+  Local Notation dir_rel := (dir_rel b64dec loads sig_ok now_s K).
+  Local Notation files_rel := (files_rel b64dec loads sig_ok now_s K).
+  Local Notation file_rel := (file_rel b64dec loads sig_ok now_s K).
+  Local Notation args_rel := (args_rel sig_ok now_s K).
   Local Notation fmt_equiv := (fmt_equiv sig_ok now_s).
   Local Notation sslib_valid := (sslib_valid sig_ok).
   Local Notation first_match_decides := (first_match_decides sig_ok).
 
   (** *** C14_verify_payload_only.
-      [md_rel m m'] : equal [get_payload] results and equal [verify_signature] results for every key.
-      [dir_rel d d'] : same sub-directory names; in every directory the same file names
-      ([files_rel]: by name) and files that load to related metadata (or fail to load alike).
+      [md_rel m m'] : equal [get_payload] results and equal [verify_signature] results for every key
+      of the class [K].  [dir_rel d d'] : same sub-directory names; in every directory the same
+      file names ([files_rel]: by name) and files that load to related metadata (or fail to load
+      alike).  Side conditions ([md_ok], [keys_in_K]): the keys the run can use — the verifier's
+      key dict and the keys of every layout in the tree — are in [K].
       Then in_toto_verify returns the same verdict, summary link and trace — at every depth,
       whatever mixture of formats each threshold and each sublayout sees. *)
   Theorem C14_verify_payload_only : forall d d' a a',
     dir_rel d d' -> args_rel a a' -> vfy d a = vfy d' a'.
-  Proof. exact (verify_rel b64dec loads sig_ok now_s now_us exec). Qed.
+  Proof. exact (verify_rel b64dec loads sig_ok now_s now_us exec K). Qed.
 
   (** the vocabulary, unfolded for the reader *)
   Theorem C14_md_rel_is : forall m m',
-    md_rel m m' <-> (get_payload m = get_payload m' /\ forall key, vsig m key = vsig m' key).
+    md_rel m m' <-> (get_payload m = get_payload m' /\ forall key, K key -> vsig m key = vsig m' key).
+  Proof. intros; reflexivity. Qed.
+  Theorem C14_mdo_rel_is : forall m m',
+    mdo_rel m m' <-> (md_rel m m' /\ forall ly, get_payload m = Ok (PLayout ly) -> keyset_ok (ly_keys ly)).
+  Proof. intros; reflexivity. Qed.
+  Theorem C14_keys_in_K_is : forall keys,
+    keys_in_K keys <-> forall ks, check_public_keys keys = Ok ks -> Forall (fun kv => K (snd kv)) ks.
+  Proof. intros; reflexivity. Qed.
+  Theorem C14_keyset_ok_is : forall keys,
+    keyset_ok keys <->
+    forall l, ly_keys l = keys ->
+      (forall s kid vk mainid,
+         verification_key l (main_keys_for_subkeys l) s kid = Some (Ok (vk, mainid)) -> K vk) /\
+      (forall kid, keys_in_K (JDict [(kid, match lookup kid (ly_keys l) with Some k => k | None => JNull end)])).
   Proof. intros; reflexivity. Qed.
   Theorem C14_args_rel_is : forall a a',
-    args_rel a a' <-> (md_rel (a_md a) (a_md a') /\ a_keys a = a_keys a' /\ a_params a = a_params a' /\
-                       a_step_name a = a_step_name a').
+    args_rel a a' <-> (mdo_rel (a_md a) (a_md a') /\ keys_in_K (a_keys a) /\ a_keys a = a_keys a' /\
+                       a_params a = a_params a' /\ a_step_name a = a_step_name a').
   Proof. intros; reflexivity. Qed.
   Theorem C14_files_rel_is : forall fs fs',
     files_rel fs fs' <->
@@ -57,7 +78,7 @@ Section C14.
     | FMalformed, FMalformed => True
     | FJson j, FJson j' =>
         match from_dict b64dec loads j, from_dict b64dec loads j' with
-        | Ok m, Ok m' => md_rel m m'
+        | Ok m, Ok m' => mdo_rel m m'
         | Err e, Err e' => e = e'
         | _, _ => False
         end
@@ -65,14 +86,13 @@ Section C14.
     end.
   Proof. intros [|j] [|j']; reflexivity. Qed.
 
-  (** "the same content in the other format" is such a relation *)
-  Theorem C14_other_format_related : forall md md', fmt_equiv md md' -> md_rel md md'.
-  Proof. exact (fmt_equiv_md_rel sig_ok now_s). Qed.
-  Theorem C14_fmt_equiv_is : forall sigs p pb pt sigs' parsed,
-    fmt_equiv (Metablock sigs p) (Envelope pb pt sigs' parsed) <->
-    (get_payload (Envelope pb pt sigs' parsed) = Ok p /\
-     forall key, vsig (Metablock sigs p) key = vsig (Envelope pb pt sigs' parsed) key).
-  Proof. intros; reflexivity. Qed.
+  (** the side conditions hold for key sets whose keys are in [K] and carry no subkeys *)
+  Theorem C14_keyset_ok_sufficient : forall keys,
+    Forall (fun kv => K (snd kv) /\ subkey_ids (snd kv) = []) keys -> keyset_ok keys.
+  Proof. exact (keyset_ok_of_Forall K). Qed.
+  Theorem C14_keys_in_K_sufficient : forall ks,
+    Forall (fun kv => K (snd kv)) ks -> keys_in_K (JDict ks).
+  Proof. exact (keys_in_K_of_Forall K). Qed.
 
   (** *** C14_envelope_roundtrip: an envelope built as in-toto builds it
       (payload bytes = json.dumps(attr.asdict(p)), json.loads inverts json.dumps) reads back as
@@ -123,6 +143,36 @@ Section C14.
     find (kid_matches kid) sigs = Some s -> sslib_valid s key msg = true -> first_match_decides kid key msg sigs.
   Proof. exact (first_valid_decides sig_ok). Qed.
 End C14.
+
+(** *** "the same content in the other format", for the plain securesystemslib keys that non-gpg
+    in-toto uses ([plain_key] = [sslib_key] for some key id): one validated payload, the same signers,
+    a consistent oracle, outside D14a  =>  [fmt_equiv]  =>  related in the sense of
+    C14_verify_payload_only with K := plain_key. *)
+Section C14b.
+  Variable sig_ok : str -> list N -> str -> bool.
+  Variable now_s : Z.
+  Local Notation vsig := (verify_signature sig_ok now_s).
+
+  Theorem C14_fmt_equiv_is : forall sigs p pb pt sigs' parsed,
+    fmt_equiv sig_ok now_s (Metablock sigs p) (Envelope pb pt sigs' parsed) <->
+    (get_payload (Envelope pb pt sigs' parsed) = Ok p /\
+     forall key, plain_key key -> vsig (Metablock sigs p) key = vsig (Envelope pb pt sigs' parsed) key).
+  Proof. intros; reflexivity. Qed.
+
+  Theorem C14_reformat_related : forall sigs p pb pt sigs' parsed msg,
+    get_payload (Envelope pb pt sigs' parsed) = Ok p ->
+    Forall sig_wf sigs -> signed_bytes_mb p = Ok msg ->
+    (forall key kid, sslib_key key kid ->
+       Forall2 (fun s s' => kid_matches kid s = kid_matches kid s' /\
+                            sslib_valid sig_ok s key msg = sslib_valid sig_ok s' key (pae (utf8 pt) pb)) sigs sigs' /\
+       first_match_decides sig_ok kid key msg sigs) ->
+    fmt_equiv sig_ok now_s (Metablock sigs p) (Envelope pb pt sigs' parsed).
+  Proof. exact (reformat_related sig_ok now_s). Qed.
+
+  Theorem C14_other_format_related : forall md md',
+    fmt_equiv sig_ok now_s md md' -> md_rel sig_ok now_s plain_key md md'.
+  Proof. exact (fmt_equiv_md_rel sig_ok now_s). Qed.
+End C14b.
 
 (* ------------------------------------------------------------------ *)
 (** * Examples and the refutation of the unrestricted statement (finding D14a).
@@ -193,6 +243,93 @@ Example C14_example_mixed_threshold_bad :
   fst (Ex.run (Ex.mb Ex.layout_body (Ex.one "0a" "aa")) (Ex.files Ex.mb Ex.dsse (Ex.one "0c" "00"))) = Err EThreshold.
 Proof. vm_compute. split; reflexivity. Qed.
 
+(** the hypotheses of C14_sigcheck_equiv are satisfiable: functionary 0c's single good signature,
+    as it appears in a traditional file ("cc") and in a loaded envelope (hex of the raw bytes) *)
+Example C14_example_sigcheck :
+  let kid := Ex.s2l "0c" in
+  let sigs := match Ex.J (Ex.one "0c" "cc") with JList l => l | _ => [] end in
+  let sigs' := match Ex.J (Ex.one "0c" "6363") with JList l => l | _ => [] end in
+  let pb := Ex.s2l Ex.link_body in
+  exists msg,
+    sslib_key Ex.the_key kid /\ Forall sig_wf sigs /\ signed_bytes_mb Ex.the_link = Ok msg /\
+    Forall2 (fun s s' => kid_matches kid s = kid_matches kid s' /\
+                         sslib_valid Ex.sig_ok s Ex.the_key msg =
+                         sslib_valid Ex.sig_ok s' Ex.the_key (pae (utf8 S_envelope_payload_type) pb)) sigs sigs' /\
+    (List.length (filter (kid_matches kid) sigs) <= 1)%nat /\
+    verify_signature Ex.sig_ok 0 (Metablock sigs Ex.the_link) Ex.the_key = Ok tt /\
+    verify_signature Ex.sig_ok 0 (Envelope pb S_envelope_payload_type sigs' (parse_json pb)) Ex.the_key = Ok tt.
+Proof.
+  cbv zeta. destruct (signed_bytes_mb Ex.the_link) as [msg|e] eqn:E; [|vm_compute in E; discriminate].
+  exists msg. vm_compute in E. inversion E; subst msg.
+  split; [vm_compute; auto|].
+  split; [repeat constructor; try (eexists; vm_compute; reflexivity)|].
+  split; [reflexivity|].
+  split; [repeat constructor|].
+  split; [vm_compute; auto|].
+  split; vm_compute; reflexivity.
+Qed.
+
+(** the hypotheses of C14_verify_payload_only are satisfiable on a cross-format pair: the all-traditional
+    and the mixed materialisation of the threshold example are [dir_rel]-related for
+    K := the three keys of the example; the theorem (not computation) then equates the runs *)
+Module ExRel.
+  Definition ka := Ex.J (Ex.key "0a" "aa").
+  Definition kb := Ex.J (Ex.key "0b" "bb").
+  Definition kc := Ex.J (Ex.key "0c" "cc").
+  Definition K (key : json) : Prop := key = ka \/ key = kb \/ key = kc.
+  Definition root := Ex.mb Ex.layout_body (Ex.one "0a" "aa").
+  Definition fs1 := Ex.files Ex.mb Ex.mb (Ex.one "0c" "cc").
+  Definition fs2 := Ex.files Ex.mb Ex.dsse (Ex.one "0c" "cc").
+End ExRel.
+
+Example C14_example_related :
+  forall md, from_dict Ex.b64 parse_json ExRel.root = Ok md ->
+  dir_rel Ex.b64 parse_json Ex.sig_ok 0 ExRel.K (Dir ExRel.fs1 []) (Dir ExRel.fs2 []) /\
+  args_rel Ex.sig_ok 0 ExRel.K (mkArgs md Ex.owner_keys None (JStr [])) (mkArgs md Ex.owner_keys None (JStr [])) /\
+  Ex.V (Dir ExRel.fs1 []) (mkArgs md Ex.owner_keys None (JStr [])) =
+  Ex.V (Dir ExRel.fs2 []) (mkArgs md Ex.owner_keys None (JStr [])).
+Proof.
+  intros md Hmd.
+  assert (Hlink : forall j j' m m',
+            from_dict Ex.b64 parse_json j = Ok m -> from_dict Ex.b64 parse_json j' = Ok m' ->
+            (exists lk, get_payload m = Ok (PLink lk)) ->
+            md_rel Ex.sig_ok 0 ExRel.K m m' ->
+            file_rel Ex.b64 parse_json Ex.sig_ok 0 ExRel.K (FJson j) (FJson j')).
+  { intros j j' m m' H1 H2 [lk Hl] Hr. unfold file_rel. rewrite H1, H2. simpl. split; [exact Hr|].
+    intros ly Hly. rewrite Hl in Hly. discriminate. }
+  assert (Hd : dir_rel Ex.b64 parse_json Ex.sig_ok 0 ExRel.K (Dir ExRel.fs1 []) (Dir ExRel.fs2 [])).
+  { constructor; [|constructor]. apply files_rel_Forall2.
+    constructor; [|constructor; [|constructor]]; (split; [reflexivity|]); cbn [snd].
+    - destruct (from_dict Ex.b64 parse_json (Ex.mb Ex.link_body (Ex.one "0b" "bb"))) as [m|e] eqn:E1;
+        [|vm_compute in E1; discriminate].
+      eapply Hlink; [exact E1 | exact E1 | | apply md_rel_refl].
+      vm_compute in E1. inversion E1; subst m. eexists. reflexivity.
+    - destruct (from_dict Ex.b64 parse_json (Ex.mb Ex.link_body (Ex.one "0c" "cc"))) as [m|e] eqn:E1;
+        [|vm_compute in E1; discriminate].
+      destruct (from_dict Ex.b64 parse_json (Ex.dsse Ex.link_body (Ex.one "0c" "cc"))) as [m'|e] eqn:E2;
+        [|vm_compute in E2; discriminate].
+      eapply Hlink; [exact E1 | exact E2 | |].
+      + vm_compute in E1. inversion E1; subst m. eexists. reflexivity.
+      + vm_compute in E1. inversion E1; subst m. vm_compute in E2. inversion E2; subst m'.
+        split; [vm_compute; reflexivity|].
+        intros key [Hk|[Hk|Hk]]; subst key; vm_compute; reflexivity. }
+  assert (Ha : args_rel Ex.sig_ok 0 ExRel.K (mkArgs md Ex.owner_keys None (JStr [])) (mkArgs md Ex.owner_keys None (JStr []))).
+  { split; [split; [apply md_rel_refl|]|].
+    - intros ly Hly. cbn [a_md] in Hly. vm_compute in Hmd. inversion Hmd; subst md. vm_compute in Hly.
+      inversion Hly; subst ly. cbn [ly_keys]. apply keyset_ok_of_Forall.
+      constructor; [|constructor; [|constructor]]; cbn [snd]; (split; [|reflexivity]).
+      + right; left; reflexivity.
+      + right; right; reflexivity.
+    - cbn [a_keys a_params a_step_name]. split; [|auto].
+      change Ex.owner_keys with (JDict [(Ex.s2l "0a", ExRel.ka)]).
+      apply keys_in_K_of_Forall. constructor; [left; reflexivity | constructor]. }
+  split; [exact Hd|]. split; [exact Ha|].
+  exact (C14_verify_payload_only Ex.b64 parse_json Ex.sig_ok 0 Ex.now_us Ex.exec ExRel.K _ _ _ _ Hd Ha).
+Qed.
+
+Example C14_example_related_root_loads : exists md, from_dict Ex.b64 parse_json ExRel.root = Ok md.
+Proof. vm_compute. eexists. reflexivity. Qed.
+
 (** *** Finding D14a.  The statement of C14_sigcheck_equiv WITHOUT [first_match_decides] is false:
     signatures [bad, good] by one key — the traditional container checks only the first matching
     signature and rejects, the envelope accepts any matching valid one. *)
@@ -225,10 +362,16 @@ Proof. vm_compute. split; reflexivity. Qed.
 
 Print Assumptions C14_verify_payload_only.
 Print Assumptions C14_md_rel_is.
+Print Assumptions C14_mdo_rel_is.
+Print Assumptions C14_keys_in_K_is.
+Print Assumptions C14_keyset_ok_is.
 Print Assumptions C14_args_rel_is.
 Print Assumptions C14_files_rel_is.
 Print Assumptions C14_file_rel_is.
+Print Assumptions C14_keyset_ok_sufficient.
+Print Assumptions C14_keys_in_K_sufficient.
 Print Assumptions C14_other_format_related.
+Print Assumptions C14_reformat_related.
 Print Assumptions C14_fmt_equiv_is.
 Print Assumptions C14_envelope_roundtrip.
 Print Assumptions C14_loader_idempotent.
